@@ -51,14 +51,18 @@ def intText (z : Int) : List Char := (toString z).toList
 
 def isDigitCh (c : Char) : Bool := '0' ≤ c && c ≤ '9'
 
+/-- split off a leading minus sign -/
+def stripMinus : List Char → Bool × List Char
+  | '-' :: r => (true, r)
+  | r => (false, r)
+
 /-- the integer a text of the form `-?digits+` denotes -/
 def intOfText (s : List Char) : Option Int :=
-  let body : List Char := match s with | '-' :: r => r | r => r
-  let neg : Bool := match s with | '-' :: _ => true | _ => false
+  let body := (stripMinus s).2
   if body.isEmpty || !body.all isDigitCh then none
   else
     let v : Nat := body.foldl (fun a c => a * 10 + (c.toNat - 48)) 0
-    some (if neg then -(v : Int) else (v : Int))
+    some (if (stripMinus s).1 then -(v : Int) else (v : Int))
 
 /-- an operand of an arithmetic operator -/
 inductive Coerced | num (q : Rat) | err (c : Code) | undef
